@@ -16,4 +16,10 @@ json.dump(names, open(os.path.join(HERE, "wv", "inventory.json"), "w"), indent=0
 from wv import inline  # noqa
 shapes = dict((q, inline.function_shape(f.node)) for q, f in prog.functions.items() if inline._is_private(f.name))
 json.dump(shapes, open(os.path.join(HERE, "wv", "inventory_shapes.json"), "w"), indent=0, sort_keys=True)
+import ast  # noqa
+nested = []
+for m in prog.modules.values():
+    nested.extend(inline.nested_names(m.name, ast.parse(m.source)))
+json.dump(sorted(nested), open(os.path.join(HERE, "wv", "inventory_nested.json"), "w"), indent=0)
+print(len(nested), "nested functions")
 print(len(names), "functions", len(shapes), "private shapes")
